@@ -517,6 +517,7 @@ class Env:
     def __init__(self, sym_facts=None, parent=None):
         self.ref = dict(parent.ref) if parent else {}
         self.excl = dict(parent.excl) if parent else {}
+        self.rel = set(parent.rel) if parent else set()     # known order facts ('lt'|'le', a, b) between terms
         self.sym_facts = sym_facts if sym_facts else (parent.sym_facts if parent else None)
         self.cache = {}
 
@@ -558,6 +559,10 @@ class Env:
         args = t[3:]
         if op in ('eq', 'ne', 'ult', 'ule', 'ugt', 'uge', 'slt', 'sle', 'sgt', 'sge'):
             r = av_cmp(op, self.av(args[0]), self.av(args[1]))
+            if not r.is_const() and self.rel and op in ('ult', 'ule', 'ugt', 'uge', 'eq', 'ne'):
+                r3 = self._cmp_rel(op, args[0], args[1])
+                if r3 is not None:
+                    return r3
             if not r.is_const() and op in ('ult', 'ule', 'ugt', 'uge', 'eq', 'ne') and args[0][0] != 'c' and args[1][0] != 'c':
                 r2 = self._cmp_affine(op, args[0], args[1])
                 if r2 is not None:
@@ -628,6 +633,27 @@ class Env:
         if len(args) == 2 and args[0][1] == bits and args[1][1] > 0:
             return av_binop(bits, op, self.av(args[0]), self.av(args[1]))
         return AV(bits) if bits else AV(1)
+
+    def _cmp_rel(self, op, a, b):
+        """decide a comparison from recorded order facts between the same two terms"""
+        t, f = AV.const(1, 1), AV.const(1, 0)
+        lt_ab = ('lt', a, b) in self.rel
+        le_ab = lt_ab or ('le', a, b) in self.rel
+        lt_ba = ('lt', b, a) in self.rel
+        le_ba = lt_ba or ('le', b, a) in self.rel
+        if op == 'ult':
+            return t if lt_ab else (f if le_ba else None)
+        if op == 'ule':
+            return t if le_ab else (f if lt_ba else None)
+        if op == 'ugt':
+            return t if lt_ba else (f if le_ab else None)
+        if op == 'uge':
+            return t if le_ba else (f if lt_ab else None)
+        if op == 'eq':
+            return f if (lt_ab or lt_ba) else (t if (le_ab and le_ba) else None)
+        if op == 'ne':
+            return t if (lt_ab or lt_ba) else (f if (le_ab and le_ba) else None)
+        return None
 
     def _cmp_affine(self, op, a, b):
         """relational comparison through the affine difference b - a (both operands far from wrapping)"""
@@ -769,6 +795,15 @@ class Env:
             if op == 'sub' and X.lo >= c and av.hi + c <= m:
                 return self.assume(x, AV(x[1], av.lo + c, av.hi + c))
             return True
+        if t[1] == 1 and av.is_const() and op in ('ult', 'ule', 'ugt', 'uge') and args[0][0] != 'c' and args[1][0] != 'c':
+            a0, b0 = args
+            o2 = op
+            if av.lo == 0:
+                o2 = {'ult': 'uge', 'ule': 'ugt', 'ugt': 'ule', 'uge': 'ult'}[op]
+            if o2 in ('ugt', 'uge'):
+                a0, b0 = b0, a0
+                o2 = 'ult' if o2 == 'ugt' else 'ule'
+            self.rel.add(('lt' if o2 == 'ult' else 'le', a0, b0))
         if t[1] == 1 and av.is_const() and op in ('eq', 'ne', 'ult', 'ule', 'ugt', 'uge'):
             a, b = args
             val = av.lo
